@@ -442,12 +442,12 @@ def gen_ranges(repo, ranks, suits):
 
 
 def array_u16(s, name):
-    m = re.search(r'const\s+%s\s*:\s*\[\s*u16\s*;\s*(\d+)\s*\]\s*=\s*\[' % name, s)
+    m = re.search(r'(?:const|static)\s+%s\s*:\s*\[\s*u16\s*;\s*([0-9a-fA-Fxb_]+(?:usize)?)\s*\]\s*=\s*\[' % name, s)
     if not m:
         raise ExtractError('cannot find const %s' % name)
     j = match_bracket(s, m.end() - 1)
     vals = [intlit(x, name) for x in s[m.end():j - 1].split(',') if x.strip()]
-    if len(vals) != int(m.group(1)):
+    if len(vals) != intlit(m.group(1), name + ' length'):
         raise ExtractError('%s: declared length %s, found %d' % (name, m.group(1), len(vals)))
     return vals
 
@@ -503,7 +503,10 @@ def gen_handtype(repo):
     s = load(repo, 'src/evaluator/made_hand.rs')
     # hand_type arms
     ht = block_after(s, r'pub\s+fn\s+hand_type\s*\(', 'hand_type')
-    scrut = norm(re.search(r'\bmatch\b([^{]*)\{', ht).group(1))
+    msr = re.search(r'\bmatch\b([^{]*)\{', ht)
+    if not msr:
+        raise ExtractError('hand_type: no match expression')
+    scrut = norm(msr.group(1))
     if scrut not in ('self.0', 'self.power_index()'):
         # `let n = self.0;` (or `self.power_index()`) followed by `match n`
         lm = re.search(r'\blet\s+(\w+)(?:\s*:\s*u16)?\s*=\s*(self\s*\.\s*0|self\s*\.\s*power_index\s*\(\s*\))\s*;', ht)
@@ -652,7 +655,9 @@ def gen_pair(repo):
     new = norm(block_after(s, r'pub\s+fn\s+new\s*\(\s*left', 'CardPair::new'))
     new = new.replace('Self(', 'CardPair(')
     mm = re.fullmatch(r'if(left|right)(>|<|>=|<=)(left|right)\{CardPair\((\w+),(\w+)\)\}else\{CardPair\((\w+),(\w+)\)\}', new)
-    minmax = new in ('CardPair(left.min(right),left.max(right))', 'CardPair(right.min(left),right.max(left))',
+    minmax = new in ('CardPair(min(left,right),max(left,right))', 'CardPair(min(right,left),max(right,left))',
+                     'CardPair(min(left,right),max(right,left))', 'CardPair(min(right,left),max(left,right))',
+                     'CardPair(left.min(right),left.max(right))', 'CardPair(right.min(left),right.max(left))',
                      'CardPair(left.min(right),right.max(left))', 'CardPair(right.min(left),left.max(right))',
                      'CardPair(std::cmp::min(left,right),std::cmp::max(left,right))')
     if mm and mm.group(1) != mm.group(3):
@@ -751,8 +756,26 @@ def gen_token(repo):
 def gen_iter(repo):
     s = load(repo, 'src/evaluator/flop_exhaustive.rs')
     # named integer constants (`const LAST: usize = 48;`) mean their literal: substitute them before reading shapes
-    for cm in re.finditer(r'\bconst\s+([A-Z_][A-Z0-9_]*)\s*:\s*(?:u8|u16|u32|u64|usize)\s*=\s*([0-9][0-9_]*)(?:u8|u16|u32|u64|usize)?\s*;', s):
-        s = re.sub(r'\b(?:Self::)?%s\b(?!\s*:)' % cm.group(1), cm.group(2).replace('_', ''), s)
+    # named integer constants mean their value: `const A: usize = 52; const B: usize = A - 3; const C: u8 = (B - 1) as u8;`
+    # -- evaluate (integer literals, earlier constants, + - *, parentheses, `as <int type>`) and substitute, to a fixpoint
+    known = {}
+    decls = re.findall(r'\bconst\s+([A-Z_][A-Z0-9_]*)\s*:\s*(?:u8|u16|u32|u64|usize)\s*=\s*([^;]+);', s)
+    for _ in range(len(decls) + 1):
+        for name, expr in decls:
+            if name in known:
+                continue
+            e = re.sub(r'\bas\s+(?:u8|u16|u32|u64|usize)\b', '', expr)
+            e = re.sub(r'\b(?:Self::)?([A-Z_][A-Z0-9_]*)\b', lambda m: str(known[m.group(1)]) if m.group(1) in known else m.group(0), e)
+            e = re.sub(r'(?<=[0-9])(?:u8|u16|u32|u64|usize)\b', '', e).replace('_', '')
+            if re.fullmatch(r'[0-9+\-*() \t\n]+', e):
+                try:
+                    v = eval(e, {'__builtins__': {}}, {})
+                except Exception:
+                    continue
+                if isinstance(v, int) and 0 <= v < 2 ** 64:
+                    known[name] = v
+    for name, v in known.items():
+        s = re.sub(r'\b(?:Self::)?%s\b(?!\s*:)' % name, str(v), s)
     new = norm(block_after(s, r'pub\s+fn\s+new\s*\(\s*board', 'FlopExhaustiveEvaluator::new'))
     mm = re.fullmatch(r'(?:Self|FlopExhaustiveEvaluator)\{(.*?),?\}', new)
     if not mm:
@@ -774,7 +797,11 @@ def gen_iter(repo):
     n = norm(nxt)
     mm = re.search(r'ifself\.current_river_index<(=?)(\d+)\{', n)
     if not mm:
-        raise ExtractError('next: river rollover literal not found')
+        # the odometer may live in a private helper of the iterator: exactly one such comparison in the whole file
+        cands = re.findall(r'ifself\.current_river_index<(=?)(\d+)\{', norm(s))
+        if len(cands) != 1:
+            raise ExtractError('next: river rollover literal not found')
+        mm = re.match(r'(=?)(\d+)', cands[0][0] + cands[0][1])
     roll = int(mm.group(2)) + (1 if mm.group(1) else 0)      # `<= k` is `< k+1`
     mm = re.search(r'current_deck:\[Card;(\d+)\]', norm(s))
     if not mm:
@@ -857,9 +884,22 @@ def main():
     r = run('Rank', lambda: gen_rank(repo), ['Rank.lean'])
     if r:
         ranks = r[1]
+    else:
+        # the conversions could not be read, but the other items only need the variant names in declaration order
+        try:
+            vs = enum_variants(load(repo, 'src/card/rank.rs'), 'Rank')
+            ranks = vs if len(vs) == 13 else None
+        except Exception:
+            ranks = None
     r = run('Suit', lambda: gen_suit(repo), ['Suit.lean'])
     if r:
         suits = r[1]
+    else:
+        try:
+            vs = enum_variants(load(repo, 'src/card/suit.rs'), 'Suit')
+            suits = vs if len(vs) == 4 else None
+        except Exception:
+            suits = None
     if ranks:
         run('RankSucc', lambda: gen_rank_succ(repo, ranks), ['RankSucc.lean'])
     else:
